@@ -524,13 +524,10 @@ class SymmetryElement(object):
         return self._replace_float_values(self.to_shelxl()).lower()
 
     def _replace_float_values(self, val: str) -> str:
-        val = val.replace('1.25', '5/4')
-        val = val.replace('0.75', '3/4')
-        val = val.replace('0.5', '1/2')
-        val = val.replace('0.33', '1/3')
-        val = val.replace('0.25', '1/4')
-        val = val.replace('0.125', '1/6')
-        return val
+        # Every decimal number is replaced by the fraction it stands for (0.3333333333333333 -> 1/3, 0.125 -> 1/8):
+        import re
+        from fractions import Fraction
+        return re.sub(r'\d*\.\d+', lambda m: str(Fraction(m.group()).limit_denominator(1000)), val)
 
     def _parse_line(self, symm: str) -> Tuple[List[int], float]:
         symm = symm.upper().replace(' ', '')
